@@ -23,9 +23,13 @@ TIERS = {
     "thorough": {"shards": 16, "cases": 60000, "timeout": 1200},
 }
 FLOORS = {"quick": {"distinct_nontrivial": 500, "foreign_char_rejections": 300,
-                    "overflow_rejections": 100, "roundtrips": 5000},
+                    "overflow_rejections": 100, "roundtrips": 5000, "wrong_length_rejections": 300,
+                    "decorated_short_rejections": 300, "junk_around_valid_rejections": 600,
+                    "case_variant_rejections": 300, "damaged_canonical_rejections": 500},
           "thorough": {"distinct_nontrivial": 5000, "foreign_char_rejections": 3000,
-                       "overflow_rejections": 1000, "roundtrips": 100000}}
+                       "overflow_rejections": 1000, "roundtrips": 100000, "wrong_length_rejections": 10000,
+                       "decorated_short_rejections": 10000, "junk_around_valid_rejections": 20000,
+                       "case_variant_rejections": 10000, "damaged_canonical_rejections": 15000}}
 
 REF_ALPHABET = "23456789ABCDEFGHJKLMNPQRSTUVWXYZabcdefghijkmnopqrstuvwxyz"
 TOP = 2 ** 128
@@ -170,7 +174,7 @@ def one_case(ctx, rng, alpha, seen, i):
         where = rng.random()
         s = s + junk if where < 0.5 else junk + s if where < 0.8 else s[:-1] + junk[:1]
         check_string(ctx, s, alpha, "junk_around_valid")
-    elif r == 6 and i % 16 == 14:  # a valid short string decorated the way canonical strings may be
+    elif r == 6 and i % 32 == 14:  # a valid short string decorated the way canonical strings may be
         s = model_encode(rng.getrandbits(128) if rng.random() < 0.7 else rng.getrandbits(60), alpha)
         k = rng.randrange(8)
         if k == 0:
